@@ -212,7 +212,9 @@ def check_segment_predicates(ctx: Ctx) -> None:
             callees = sl.callees()
             is_tag = any(c in tag_preds for c in callees)
             is_block = any("block_content" in c or "block_heuristics" in c for c in callees)
-            ctx.ob("R-LAYOUT-Y3", f"{w.qual} :: segment boundary disjunct `{norm(d)}`", is_tag and not is_block,
+            # (keyed by what the disjunct consults, in source order - not by the names of the temporaries it is spelled with)
+            what = "the block-content heuristics" if is_block else ("tag adjacency" if is_tag else "something else")
+            ctx.ob("R-LAYOUT-Y3", f"{fac.qual} [wrapper] :: segment boundary disjunct consulting {what}", is_tag and not is_block,
                    "the only layout that may be significant is a newline directly before or after a template tag / HTML comment; this disjunct "
                    "starts a new segment on a different condition (" + ", ".join(sorted(c.split(':')[-1] for c in callees if ':' in c)) + ")",
                    where(w, t))
